@@ -9,8 +9,11 @@ Correspondence (every run): for every generated ITS graph
   extract_k(its, k)      == model `its.extractK`  for k = 0..3 (node/edge sets with all ITS labels)
   get_rc(get_rc(its))    == model `its.rc` of the implementation's centre, and == get_rc(its)
   centre of a renumbered reaction / relabelled ITS  ~  centre   (Lean `match.iso`)
-  extract_k(its, -1), context_extraction, paralle_context_extraction  == model distance balls (see `aux_cases`)
-  find_unequal_order_edges(its)  == atoms of the changed bonds of the model centre (well-formed ITS)
+  extract_k(its, -1)     == model `its.extractFree` (the ITS plus its NetworkX adjacency order; graph and the radius
+                            len(longest_radius_extension(...)) the code picks); second gate: a distance ball (see `aux_cases`)
+  context_extraction, paralle_context_extraction  == model centre / `its.extractK`
+  find_unequal_order_edges(its)  == model `its.unequalOrderEdges`; second gate on a well-formed ITS: atoms of the changed
+                            bonds of the model centre
   rsmi_to_its(rsmi, core=True, options)  == model centre of the ITS of that reaction (see `entry_cases`)
   the same on ITS graphs with extra unselected attributes (`weight`, `label`, ...), with ==-equal numbers written in mixed
   ways, on larger structured shapes; find_nearest_neighbors(its, centre, k) / re-queried extract_k == model balls (`direct_cases`)
@@ -42,6 +45,13 @@ THEOREMS = [
     "SynKit.ITS.mem_extractK_iff_dist",
     "SynKit.ITS.context_chain",
     "SynKit.ITS.C02.fullStatement_holds",
+    "SynKit.ITS.extractK_stabilises",
+    "SynKit.ITS.extractFree_radius",
+    "SynKit.ITS.extractFree_spec",
+    "SynKit.ITS.extractFree_spec_wfits",
+    "SynKit.ITS.extractFree_whole",
+    "SynKit.ITS.dfsLongest_enough_fuel",
+    "SynKit.ITS.unequalOrderEdges_spec",
 ]
 
 RC_EDGE_KEYS = ["order", "standard_order"]
@@ -309,6 +319,47 @@ def impl_unequal(its):
     return RadiusExpand.find_unequal_order_edges(its)
 
 
+def impl_free_radius(its):
+    """The radius extract_k(its, -1) computes: len(longest_radius_extension(its, list(get_rc(its).nodes())))."""
+    from synkit.Graph.Context.radius_expand import RadiusExpand
+    from synkit.Graph.ITS.its_decompose import get_rc
+    return len(RadiusExpand.longest_radius_extension(its, list(get_rc(its).nodes())))
+
+
+def adjacency(its):
+    """NetworkX adjacency order of every atom (G.neighbors order): it breaks the ties of the depth-first search of
+    longest_radius_extension and is not determined by the order of G.edges()."""
+    return [[int(n), [int(m) for m in its[n]]] for n in its.nodes]
+
+
+def free_request(its, I0):
+    return {"cmd": "its.extractFree", "its": I0, "adj": adjacency(its)}
+
+
+def free_model_verdict(K, r_impl, m_free):
+    """extract_k(its, -1) and the radius it picked against the Lean model its.extractFree.  -> None | description."""
+    if r_impl != m_free["radius"]:
+        return f"len(longest_radius_extension) = {r_impl}, model radius = {m_free['radius']}"
+    x, y = canon(enc(K), ITS_NODE_KEYS, ITS_EDGE_KEYS), canon(m_free, ITS_NODE_KEYS, ITS_EDGE_KEYS)
+    if x != y:
+        return f"radius {r_impl} on both sides, but the context differs from the model's: " + first_diff(x, y)
+    return None
+
+
+def unequal_expressible(its):
+    """The model's Val does not tell a list from a tuple (find_unequal_order_edges tests isinstance(order, tuple)) and
+    compares nested containers structurally: gate only when no `order` is a list or has a container among its first two entries."""
+    for _, _, d in its.edges(data=True):
+        if "order" not in d:
+            continue
+        o = d["order"]
+        if isinstance(o, (list, set, frozenset, dict)):
+            return False
+        if isinstance(o, tuple) and any(isinstance(x, (list, tuple, set, frozenset, dict)) for x in o[:2]):
+            return False
+    return True
+
+
 def impl_context_extraction(its, its_key, context_key, k):
     from synkit.Graph.Context.radius_expand import RadiusExpand
     data = {"R-id": "x", its_key: its}
@@ -416,6 +467,7 @@ def aux_cases(ctx, cases, tag, all_params=False):
             ckeys = ctx.rnd.choice(CTX_KEYS)
             try:
                 Km1 = impl_k(its, -1)
+                rfree = impl_free_radius(its)
                 fu = impl_unequal(its)
                 ce = {k: impl_context_extraction(its, ckeys[0], ckeys[1], k) for k in cks}
             except Exception as e:
@@ -425,16 +477,18 @@ def aux_cases(ctx, cases, tag, all_params=False):
             if enc(its) != I0:
                 ctx.violation("a context entry point mutated the ITS", {"stream": tag, "its": I0, "meta": meta, "aux": "mutated"})
             ks = sorted(set(cks) | set(pks))
-            keep.append((its, I0, meta, Km1, fu, ce, {k: par[k][i] for k in pks}, ks, len(reqs), ckeys, pkeys))
+            keep.append((its, I0, meta, (Km1, rfree), fu, ce, {k: par[k][i] for k in pks}, ks, len(reqs), ckeys, pkeys))
             reqs.append({"cmd": "its.rc", "its": I0})
+            reqs.append(free_request(its, I0))
+            reqs.append({"cmd": "its.unequalOrderEdges", "its": I0})
             for k in ks:
                 if k >= 1:
                     reqs.append({"cmd": "its.extractK", "its": I0, "k": k})
     reps = ctx.lean().ok(reqs, shards=8)
     models, second = [], []
-    for its, I0, meta, Km1, fu, ce, pa, ks, at, ckeys, pkeys in keep:
-        model = {0: reps[at]}
-        j = at + 1
+    for its, I0, meta, (Km1, rfree), fu, ce, pa, ks, at, ckeys, pkeys in keep:
+        model = {0: reps[at], "free": reps[at + 1], "unequal": reps[at + 2]}
+        j = at + 3
         for k in ks:
             if k >= 1:
                 model[k] = reps[j]
@@ -446,7 +500,7 @@ def aux_cases(ctx, cases, tag, all_params=False):
             need = need + (True,)
         models.append((model, need))
     reps2 = ctx.lean().ok(second, shards=8) if second else []
-    for (its, I0, meta, Km1, fu, ce, pa, ks, at, ckeys, pkeys), (model, need) in zip(keep, models):
+    for (its, I0, meta, (Km1, rfree), fu, ce, pa, ks, at, ckeys, pkeys), (model, need) in zip(keep, models):
         if len(ctx.violations) >= 6:
             return
         m_rc = model[0]
@@ -460,12 +514,31 @@ def aux_cases(ctx, cases, tag, all_params=False):
         r = ball_radius(its, seeds, Km1.nodes) if seeds <= set(Km1.nodes) else None
         ctx.count(f"{tag}:aux:k=-1:radius_of_result={'none' if r is None else min(r, 6)}")
         ctx.count(f"{tag}:aux:k=-1:{'whole ITS' if len(Km1) == len(its) else 'proper part of the ITS'}")
+        ctx.count(f"{tag}:aux:k=-1:radius_picked={min(rfree, 8)}")
+        # second gate (specification, independent of the model of the search): a distance ball around the centre
         why = need[0] if need[0] is not None else free_radius_compare(Km1, need[1], model[need[1]])
         if why:
             ctx.violation("extract_k(its, -1) is not a distance ball around the reaction centre",
                           shrink_aux(ctx, dict(case, aux="k=-1"), lambda J: free_radius_verdict(ctx, J, enc(J), impl_k(J, -1), ctx.lean().ok([{"cmd": "its.rc", "its": enc(J)}])[0])),
                           {"why": why})
             continue
+        # first gate: the Lean model of the free-radius mode (its.extractFree: graph and radius, as coded)
+        why = free_model_verdict(Km1, rfree, model["free"])
+        if why:
+            ctx.violation("extract_k(its, -1) / longest_radius_extension differ from the model its.extractFree (the result is still a distance ball)",
+                          dict(case, aux="k=-1:model"), {"why": why}, no_input=True)
+            continue
+        if wf_its(its) and seeds:
+            # Lean extractFree_spec: on a well-formed ITS the free-radius context is the component(s) of the centre
+            comp = set()
+            for c in nx.connected_components(its):
+                if c & seeds:
+                    comp |= c
+            ctx.count(f"{tag}:aux:k=-1:wf-ITS:component-checked")
+            if {int(n) for n in Km1.nodes} != {int(n) for n in comp}:
+                ctx.violation("extract_k(its, -1) on a well-formed ITS is not the connected component of the reaction centre (Lean extractFree_spec)",
+                              dict(case, aux="k=-1:component"), {"impl": sorted(int(n) for n in Km1.nodes)[:20], "component": sorted(int(n) for n in comp)[:20]})
+                continue
         # (2) dict wrappers, non-default keys
         bad = None
         for how, got, keys in (("context_extraction", ce, ckeys), ("paralle_context_extraction", pa, pkeys)):
@@ -482,15 +555,26 @@ def aux_cases(ctx, cases, tag, all_params=False):
                           dict(case, aux=how, n_knn=k, keys=list(keys)), {"diff": diff})
             continue
         # (3) atoms of the changed bonds
+        got_fu = {int(n) for n in fu}
         if wf_its(its):
+            # second gate (specification; Lean unequalOrderEdges_spec (2)): atoms of the changed bonds of the model centre
             want = changed_endpoints(m_rc)
             ctx.count(f"{tag}:aux:unequal_order_atoms={min(len(want), 6)}")
-            if set(fu) != want:
+            if got_fu != want:
                 ctx.violation("find_unequal_order_edges is not the set of atoms incident to the bonds whose order differs",
                               shrink_aux(ctx, dict(case, aux="unequal"), lambda J: wf_its(J) and set(impl_unequal(J)) != changed_endpoints(ctx.lean().ok([{"cmd": "its.rc", "its": enc(J)}])[0])),
                               {"impl": sorted(fu)[:12], "model": sorted(want)[:12]})
+                continue
+        if unequal_expressible(its):
+            # first gate: the Lean model of find_unequal_order_edges, as coded (also on ill-formed ITS)
+            m_un = model["unequal"]
+            ctx.count(f"{tag}:aux:unequal_order:model-gated:{'wf' if wf_its(its) else 'ill-formed ITS'}")
+            if "error" in m_un or got_fu != set(m_un["nodes"]):
+                ctx.violation("find_unequal_order_edges differs from the model its.unequalOrderEdges",
+                              dict(case, aux="unequal:model"), {"impl": sorted(got_fu)[:12], "model": m_un if "error" in m_un else m_un["nodes"][:12]},
+                              no_input=True)
         else:
-            ctx.count(f"{tag}:aux:unequal_order:not-gated(ill-formed ITS)")
+            ctx.count(f"{tag}:aux:unequal_order:not-gated(order written as a list)")
 
 
 def shrink_aux(ctx, case, bad):
@@ -1132,17 +1216,22 @@ def run(ctx):
     base.quiet()
     ctx.trusted = [
         "Lean 4.33 kernel; axioms of the property theorems as listed in obligation_list",
-        "hand-written model SynKitModel/ITS.lean (getRc, expand, extractK) tied to /repo by this correspondence run (not by translation)",
+        "hand-written model SynKitModel/ITS.lean (getRc, expand, extractK, extractFreeAdj, unequalOrderEdges) tied to /repo by this correspondence run (not by translation)",
         "Driver/ITS.lean + Driver/GraphJson.lean JSON codec, harness/graphio.py encoder, canonicalisation in harness/props/c01.py/c02.py",
         "match.iso (centre of a renumbered reaction ~ centre) is the back-tracking enumerator of SynKitModel/Match.lean",
         "RDKit + MolToGraph only as the source of corpus ITS graphs (inputs); NetworkX Graph semantics (no parallel edges)",
     ]
     ctx.assumptions = ["'ITS labels' of a centre atom = element, charge, typesGH, atom_map (DESIGN 5a)",
-                       "extract_k with n_knn = -1: the radius the code picks (length of its longest unchanged-bond extension) is not fixed by C02 and not "
-                       "modelled; gated is only what C02 states for any radius: the result contains the centre and equals the model's radius-r context "
-                       "(Lean its.extractK) for r = distance of its farthest atom from the centre (breadth-first search in the harness), or is the centre itself",
-                       "find_unequal_order_edges is gated only on ITS whose bonds satisfy standard_order == order[0] - order[1] (Lean WFits): == atoms incident "
-                       "to the bonds of the MODEL centre whose two orders differ (unchanged H-H bonds are not 'unequal order' bonds)",
+                       "extract_k with n_knn = -1: modelled as coded (Lean extractFreeAdj: the radius is the number of atoms of the path "
+                       "longest_radius_extension returns; ties of its depth-first search follow the NetworkX adjacency order, which is sent to the driver "
+                       "next to the ITS): the context == its.extractFree and len(longest_radius_extension(its, centre atoms)) == the model radius; "
+                       "the radius itself is not fixed by C02, so a divergence from the model is reported as a broken correspondence unless the older gate "
+                       "also fails: the result contains the centre and equals the model's radius-r context (Lean its.extractK) for r = distance of its "
+                       "farthest atom from the centre (breadth-first search in the harness), or is the centre itself; on ITS whose bonds satisfy "
+                       "standard_order == order[0] - order[1] additionally == the connected component(s) of the centre (Lean extractFree_spec)",
+                       "find_unequal_order_edges == Lean its.unequalOrderEdges (as coded; gated unless an order is written as a list, which the model's "
+                       "values do not tell from a tuple); on ITS whose bonds satisfy standard_order == order[0] - order[1] (Lean WFits) additionally == atoms "
+                       "incident to the bonds of the MODEL centre whose two orders differ (unchanged H-H bonds are not 'unequal order' bonds)",
                        "context_extraction / paralle_context_extraction (n_jobs=1, non-default dictionary keys) must return exactly extract_k's context: "
                        "compared with the model centre (k=0) / model its.extractK (k=1..3)",
                        "rsmi_to_its(core=True, options): the ITS handed to the model is the one the same call returns with core=False (ITS construction is "
